@@ -5,6 +5,7 @@ import ChythonModel.Proofs.C10Stable
 import ChythonModel.Proofs.C10Attach
 import ChythonModel.Proofs.C10Half
 import ChythonModel.Proofs.C10HalfTrunc
+import ChythonModel.Proofs.C10PerceiveMain
 /-!
 # C10 — binary pack format: lossless round trip, stable published layout
 
@@ -271,6 +272,127 @@ theorem tables_match_published :
 theorem rxn_rejects (r : PRxn) (h : r.reactants.length > 255 ∨ r.reagents.length > 255 ∨ r.products.length > 255) :
     rxnEncode r = .error .count := by
   simp [rxnEncode, h]
+
+/-! ## the stereo perception inside the model (`Model/PackStereo.lean`: `cumulenes`, `stereogenic_cumulenes`,
+`_stereo_cis_trans_terminals`, `_stereo_cis_trans_centers`), round 5 -/
+
+/-- the perception never reads an atom or bond stereo mark: the unpacker, which perceives the centres on the decoded molecule
+    whose bond marks are still erased, sees exactly the chains the packer saw -/
+theorem perception_ignores_marks (atoms : List PAtom) : perceive (atoms.map eraseSt) = perceive atoms :=
+  perceive_erase atoms
+
+/-- Python `d[k] = v; d[k']` on the insertion-ordered association list the dictionaries are modelled with -/
+theorem dict_assignment {β} (d : List (Nat × β)) (k k' : Nat) (v : β) :
+    (dictSet d k v).lookup k' = if k' = k then some v else d.lookup k' :=
+  lookup_dictSet d k k' v
+
+/-- **`CentersOK` holds for the model's own perception**: for every molecule, if every marked bond is the central bond of a
+    perceived stereogenic unit (`MarksOK`) and no atom is a dictionary key of two units (`KeysDisjoint`), then the perceived
+    `_stereo_cis_trans_terminals` / `_stereo_cis_trans_centers` lead the first terminal of every marked bond back to that bond. -/
+theorem perceived_centers_ok (atoms : List PAtom) (p : Perceived) (hp : perceive atoms = .ok p)
+    (hm : MarksOK atoms (p.stereogenic.map (·.1))) (hd : KeysDisjoint (p.stereogenic.map (·.1))) :
+    CentersOK ⟨atoms, p.terminals⟩ p.centers :=
+  perceived_centersOK' hp hm hd
+
+/-- full statement of the label round trip with nothing taken from chython: every molecule within the limits whose marks sit
+    on perceived stereogenic double bonds comes back from `unpack(pack(m))` with every mark. FALSE for the code as it is
+    (`Findings.C10.stereo_roundtrip_full_false`: two stereogenic double bonds sharing an atom, known finding
+    `C10/roundtrip/bond-stereo/shared-atom`). -/
+def StereoRoundTripFull : Prop :=
+  ∀ (atoms : List PAtom) (p : Perceived), perceive atoms = .ok p → WF ⟨atoms, p.terminals⟩ →
+    MarksOK atoms (p.stereogenic.map (·.1)) → ∀ rest : List Nat,
+      ∃ bytes, packFull atoms = .ok bytes ∧ (unpackFull (bytes ++ rest)).map (·.atoms) = .ok atoms
+
+/-- **cis/trans labels survive, perception included** (`packFull` / `unpackFull` are the complete
+    `MoleculeContainer.pack` / `unpack`; the terminals written and the centres used for re-attachment are the model's own
+    perception — the `CentersOK` hypothesis of `unpack_pack_with_stereo` is discharged). Excluded relative to
+    `StereoRoundTripFull`: exactly the molecules in which an atom is a dictionary key of two perceived cis/trans units
+    (`¬ KeysDisjoint`; needs an atom with more than two neighbours and two double bonds). -/
+theorem stereo_roundtrip_partial (atoms : List PAtom) (p : Perceived) (hp : perceive atoms = .ok p)
+    (h : WF ⟨atoms, p.terminals⟩) (hm : MarksOK atoms (p.stereogenic.map (·.1)))
+    (hd : KeysDisjoint (p.stereogenic.map (·.1))) (rest : List Nat) :
+    ∃ bytes, packFull atoms = .ok bytes ∧
+      unpackFull (bytes ++ rest) = .ok ⟨atoms, ctListOf p.terminals (firstSeen [] atoms), bytes.length⟩ :=
+  pack_unpack_full_aux atoms p hp h hm hd rest
+
+/-- the executable forms evaluated by the driver on every real molecule that carries marks imply the hypotheses -/
+theorem perceived_hypotheses_executable (atoms : List PAtom) (sp : List (List Nat)) :
+    (marksOKb atoms sp = true → MarksOK atoms sp) ∧ (keysDisjointb sp = true → KeysDisjoint sp) :=
+  ⟨marksOKb_sound atoms sp, keysDisjointb_sound sp⟩
+
+/-- a molecule without any cis/trans mark needs neither hypothesis -/
+theorem unmarked_roundtrip (atoms : List PAtom) (p : Perceived) (hp : perceive atoms = .ok p)
+    (h : WF ⟨atoms, p.terminals⟩) (hu : ∀ q ∈ firstSeen [] atoms, q.2.stereo = none) (rest : List Nat) :
+    ∃ bytes, packFull atoms = .ok bytes ∧ (unpackFull (bytes ++ rest)).map (·.atoms) = .ok atoms := by
+  have hc : CentersOK ⟨atoms, p.terminals⟩ p.centers := by
+    intro q hq s hs; rw [hu q hq] at hs; exact absurd hs (by simp)
+  obtain ⟨bytes, e1, _, e3⟩ := decode_encode_aux ⟨atoms, p.terminals⟩ h rest
+  have hatt := attach_roundtrip_aux ⟨atoms, p.terminals⟩ h p.centers hc
+  have hnil : ∀ (fs : List (Nat × PNbr)), (∀ q ∈ fs, q.2.stereo = none) → ctListOf p.terminals fs = [] := by
+    intro fs
+    induction fs with
+    | nil => intro _; rfl
+    | cons q r ih =>
+      intro hq
+      obtain ⟨n, nb⟩ := q
+      have h1 : nb.stereo = none := hq (n, nb) (by simp)
+      simp only [ctListOf, h1]
+      exact ih (fun x hx => hq x (by simp [hx]))
+  have hct := hnil _ hu
+  refine ⟨bytes, ?_, ?_⟩
+  · unfold packFull
+    unfold encode at e1
+    cases hcl : checkLimits atoms with
+    | error e => simp [hcl, bind, Except.bind] at e1
+    | ok u =>
+      simp only [hcl, bind, Except.bind] at e1
+      simp only [hp, e1]
+  · unfold unpackFull
+    simp only at e3 hatt
+    rw [e3, hct]
+    rw [hct] at hatt
+    simp only [attach] at hatt
+    simp only [Except.map, hatt]
+
+/-- but-2-ene with a mark, and hexa-2,3,4-triene (three cumulated double bonds) with a mark on the central bond -/
+def exAlkene : List PAtom :=
+  [{ num := 1, z := 6, iso := none, stereo := none, x := 0, y := 0, h := some 3, charge := 0, radical := false, nbrs := [⟨2, 1, none⟩] },
+   { num := 2, z := 6, iso := none, stereo := none, x := 0, y := 0, h := some 1, charge := 0, radical := false,
+     nbrs := [⟨1, 1, none⟩, ⟨3, 2, some true⟩] },
+   { num := 3, z := 6, iso := none, stereo := none, x := 0, y := 0, h := some 1, charge := 0, radical := false,
+     nbrs := [⟨2, 2, some true⟩, ⟨4, 1, none⟩] },
+   { num := 4, z := 6, iso := none, stereo := none, x := 0, y := 0, h := some 3, charge := 0, radical := false, nbrs := [⟨3, 1, none⟩] }]
+
+def exTriene : List PAtom :=
+  [{ num := 10, z := 6, iso := none, stereo := none, x := 0, y := 0, h := some 3, charge := 0, radical := false, nbrs := [⟨20, 1, none⟩] },
+   { num := 20, z := 6, iso := none, stereo := none, x := 0, y := 0, h := some 1, charge := 0, radical := false,
+     nbrs := [⟨10, 1, none⟩, ⟨30, 2, none⟩] },
+   { num := 30, z := 6, iso := none, stereo := none, x := 0, y := 0, h := some 0, charge := 0, radical := false,
+     nbrs := [⟨20, 2, none⟩, ⟨40, 2, some false⟩] },
+   { num := 40, z := 6, iso := none, stereo := none, x := 0, y := 0, h := some 0, charge := 0, radical := false,
+     nbrs := [⟨30, 2, some false⟩, ⟨50, 2, none⟩] },
+   { num := 50, z := 7, iso := none, stereo := none, x := 0, y := 0, h := some 0, charge := 1, radical := false,
+     nbrs := [⟨40, 2, none⟩, ⟨60, 1, none⟩, ⟨70, 1, none⟩] },
+   { num := 60, z := 6, iso := none, stereo := none, x := 0, y := 0, h := some 3, charge := 0, radical := false, nbrs := [⟨50, 1, none⟩] },
+   { num := 70, z := 9, iso := none, stereo := none, x := 0, y := 0, h := some 0, charge := 0, radical := false, nbrs := [⟨50, 1, none⟩] }]
+
+/-- the hypotheses of `stereo_roundtrip_partial` are satisfiable with marks present -/
+example : ∀ atoms ∈ [exAlkene, exTriene], ∃ p, perceive atoms = .ok p ∧ WF ⟨atoms, p.terminals⟩ ∧
+    MarksOK atoms (p.stereogenic.map (·.1)) ∧ KeysDisjoint (p.stereogenic.map (·.1)) ∧ p.centers ≠ [] := by
+  have key : ∀ atoms ∈ [exAlkene, exTriene], (match perceive atoms with
+      | .ok p => wfb ⟨atoms, p.terminals⟩ && marksOKb atoms (p.stereogenic.map (·.1)) &&
+          keysDisjointb (p.stereogenic.map (·.1)) && !p.centers.isEmpty
+      | .error _ => false) = true := by decide +kernel
+  intro atoms ha
+  have := key atoms ha
+  cases hp : perceive atoms with
+  | error e => simp [hp] at this
+  | ok p =>
+    simp only [hp, Bool.and_eq_true, Bool.not_eq_true', List.isEmpty_eq_false_iff] at this
+    exact ⟨p, rfl, wfb_sound _ this.1.1.1, marksOKb_sound _ _ this.1.1.2, keysDisjointb_sound _ this.1.2, this.2⟩
+
+example : perceive exTriene = .ok ⟨[[20, 30, 40, 50]], [([20, 30, 40, 50], 10, 60, none, some 70)],
+    [(20, 20, 50), (50, 20, 50), (40, 20, 50), (30, 20, 50)], [(20, 30, 40), (50, 30, 40)], []⟩ := by rfl
 
 /-! ## non-vacuity: the hypotheses are satisfiable by non-trivial instances -/
 
